@@ -16,6 +16,9 @@ def make_settings(over=None):
         elif k == "pskConfigs":
             v = [tuple(bytearray(bytes.fromhex(y)) if i < 2 else y
                        for i, y in enumerate(x)) for x in v]
+        elif k == "dc_sig_algs":
+            from tlslite.constants import SignatureScheme
+            v = [getattr(SignatureScheme, x) for x in v]
         elif k == "ticketKeys":
             v = [bytearray(bytes.fromhex(x)) for x in v]
         elif k == "padding_cb":
@@ -122,6 +125,18 @@ class Pair(object):
             chain = key = None
             if sc.get("skey"):
                 chain, key = creds.load("server", sc["skey"])
+            if sc.get("dc"):
+                # delegated credential (RFC 9345): [dc algorithm, signer]
+                dck, dc = creds.delegated(sc["skey"], sc["dc"][0],
+                                          sc["dc"][1] if len(sc["dc"]) > 1
+                                          else None)
+                if sc.get("dc_extra_chain"):
+                    from tlslite.api import X509CertChain
+                    other = creds.load("server", sc["dc_extra_chain"])[0]
+                    chain = X509CertChain(other.x509List + chain.x509List)
+                kw["dc_key"] = dck
+                kw["del_cred"] = dc
+                key = None
             return lambda: s.handshakeServerAsync(
                 certChain=chain, privateKey=key,
                 reqCert=bool(sc.get("req_cert")), settings=self.sset,
